@@ -300,9 +300,9 @@ func main() {
 		}
 		return c
 	}
-	kinds := []string{"mem", "frag", "mbapp", "mux-string", "multi", "multi-ask", "map", "wl", "p2pke", "udp"}
+	kinds := []string{"mem", "frag", "mbapp", "mux-string", "multi", "multi-ask", "map", "wl", "p2pke", "udp", "multi-failclose", "multi-ask-failclose"}
 	if run.Thorough() {
-		kinds = stacks.Kinds
+		kinds = append(append([]string{}, stacks.Kinds...), "multi-failclose", "multi-ask-failclose")
 	}
 	for _, k := range kinds {
 		h := 90 * time.Second
